@@ -78,7 +78,7 @@ def manager_family(c, exe_go, exe_model, n, only=None):
     st = {"histories": set(), "ops": 0, "kinds": {}, "pass_kinds": {}, "distinct": set(), "other_unlocked": 0,
           "raw_switched": 0, "raw_two_signers": 0, "nothing_in_use": 0, "gen": gstats, "sample": []}
     corr, herr = [], []
-    passes, prev, seq, diverged = {}, {}, {}, set()
+    passes, prev, seq, diverged, reported = {}, {}, {}, set(), set()
     mi = 0
     for l in ilines:
         f = l.split("\t")
@@ -125,6 +125,10 @@ def manager_family(c, exe_go, exe_model, n, only=None):
                 st["raw_two_signers"] += 1
 
         def viol(key, what, model=None):
+            # one report per (key, history): later ones of the same history follow from the first
+            if (key, h) in reported:
+                return
+            reported.add((key, h))
             c.violation(key, what, {"family": "manager", "mhistory": h, "sequence": seq[h][-60:], "line": l[:1500], "model": model, "rerun": rerun})
 
         if len(a) != len(b):
@@ -189,7 +193,7 @@ def manager_family(c, exe_go, exe_model, n, only=None):
 
 def main(tier, replay=None):
     c = V.Check(PID, tier)
-    proofs_ok = c.proofs(gen_only=["Consts.v"], extra_targets=["Keys/Exec.vo"])
+    proofs_ok = c.proofs(gen_only=["Consts.v"], extra_targets=["Keys/Exec.vo", "Keys/ExecManager.vo"])
     c.log("proofs:", "ok" if proofs_ok else c.proof_break)
     outs, err = V.go_build(["c05"])
     if outs is None:
